@@ -146,6 +146,18 @@ CHECKS = {
         "assumptions": ["testing/synctest durable-block detection", "the gated Locker identifies the unlocking waiter because Lock is exclusive", "rapid v1.3.0; go1.26.8"],
         "jobs": [{"pkg": "c16cond", "kinds": ["cond"], "scale_thorough": 10, "shards_thorough": 16, "replay_reps": 50}],
     },
+    "C11": {
+        "level": "exploration",
+        "level_text": ("Generated timelines on the fake clock: item arrival gaps (bursts, trickles, exactly maxWait, slower), source end or error, consumer Next calls with no/short/long deadlines, sleeps, and Close at a generated "
+                       "moment, for Batch and BatchFunc (generated thresholds, optional predicate latency); every returned batch is checked to be the next undelivered items, non-empty, not oversized, not handed out underfilled "
+                       "before its oldest item waited maxWait (exact), not held back beyond max(call, arrival)+maxWait (exact), context expiry free of cost, error after all items, Close returns with the source closed once and no goroutine left"),
+        "level_note": "Exact fake-time arithmetic needs no tolerance; select ties are explored by repetition (R=3/10). Trusts testing/synctest and sk.RecStream's hand-over timestamps.",
+        "technique": "property-based testing (rapid) of generated timelines in testing/synctest bubbles; partition + exact fake-time oracle",
+        "rule": ("plans: 0-30 items with gaps from {0, maxWait/3, maxWait, 3*maxWait}, 0-25 consumer steps then close or drain. non-trivial = an underfilled batch was handed out by timer, or Close was issued while the producer held "
+                 "undelivered items, or a waiter followed a cancelled waiter; distinct = distinct plan JSON; each plan runs R times"),
+        "assumptions": ["testing/synctest fake clock", "sk.RecStream timestamps", "rapid v1.3.0; go1.26.8"],
+        "jobs": [{"pkg": "c11batch", "kinds": ["batch"], "scale_thorough": 10, "shards_thorough": 16, "replay_reps": 30}],
+    },
     "C04": {
         "level": "exploration",
         "level_text": ("Model-based property testing: thousands of generated operation histories (macro-ops reach wrapped, full, "
